@@ -10,6 +10,7 @@ hypothesis, with negation witnesses below.
 -/
 import DropshotProofs.C04
 import DropshotProofs.Lemmas.RouterConflict
+import DropshotProofs.Lemmas.RouterLive
 import DropshotModel.Register
 
 namespace Dropshot.C02
@@ -124,6 +125,57 @@ theorem conflict_refused (t : Node V) (hw : C01.WF t) (e : Endpoint V)
       rw [hp] at ha
       have := Node.insertAt_noOverlap t e.path [] e t' hw.sorted hw.methods hins e' ha hm
       rw [this] at ho; cases ho
+
+/-- **C02, "an endpoint with none of these conflicts is always accepted".** -/
+theorem no_conflict_accepted (t : Node V) (hw : C01.WF t) (hl : Node.Live t) (e : Endpoint V)
+    (hc : ¬ Conflict t.abs e) : ∃ t', t.insert e = .ok t' := by
+  simp only [Conflict, not_or, not_exists, not_and] at hc
+  obtain ⟨h1, h2, h3⟩ := hc
+  have h1 : WildLast e.path := Classical.byContradiction h1
+  have h2 : (varNames e.path).Nodup := Classical.byContradiction h2
+  unfold Node.insert
+  refine Node.insertAt_ok t e.path [] e hw.sorted hw.methods hl h1 h2 (by simp) ⟨?_, ?_⟩
+  · intro x hx
+    have haddr := hw.addr _ hx
+    have hmem : x.2 ∈ t.abs := (C01.mem_abs_iff t x.2).2 ⟨x.1, hx⟩
+    have := (h3 x.2 hmem).1
+    rw [haddr]
+    cases hh : pathClash x.2.path e.path
+    · rfl
+    · exact absurd hh this
+  · intro e' he' hm
+    have haddr := hw.addr _ he'
+    simp only at haddr
+    have hmem : e' ∈ t.abs := (C01.mem_abs_iff t e').2 ⟨_, he'⟩
+    have := (h3 e' hmem).2 haddr.symm hm
+    cases hh : Range.overlaps e'.versions e.versions
+    · rfl
+    · exact absurd hh this
+
+/-- **C02, refusal ⇔ conflict.**  On any table reached by accepted
+registrations, `insert` fails exactly when the new endpoint conflicts with a
+registered one or with itself, in the sense of the declarative list. -/
+theorem insert_error_iff (es : List (Endpoint V)) (t : Node V)
+    (hr : ∀ e ∈ es, Range.WF e.versions) (h : insertAll Node.empty es = .ok t) (e : Endpoint V) :
+    (∃ err, t.insert e = .error err) ↔ Conflict es e := by
+  obtain ⟨w, a⟩ := C01.accepted_wf es t hr h
+  have hl := insertAll_live es Node.empty t live_empty h
+  have hce : Conflict es e ↔ Conflict t.abs e := by
+    simp only [Conflict]
+    constructor <;> rintro (h1 | h1 | ⟨e', he', h2⟩)
+    · exact Or.inl h1
+    · exact Or.inr (Or.inl h1)
+    · exact Or.inr (Or.inr ⟨e', (a e').2 he', h2⟩)
+    · exact Or.inl h1
+    · exact Or.inr (Or.inl h1)
+    · exact Or.inr (Or.inr ⟨e', (a e').1 he', h2⟩)
+  rw [hce]
+  constructor
+  · rintro ⟨err, herr⟩
+    by_contra hnc
+    obtain ⟨t', ht'⟩ := no_conflict_accepted t w hl e hnc
+    rw [ht'] at herr; cases herr
+  · exact conflict_refused t w e
 
 /-- The same for a shared version: two endpoints on one template and method whose
 ranges share a version cannot both be registered, in either order. -/
